@@ -2,6 +2,7 @@ package main
 
 import (
 	"fmt"
+	"strings"
 
 	"github.com/0xrawsec/sod"
 	"github.com/0xrawsec/sod/zzverif/vfs"
@@ -52,7 +53,13 @@ func uniqueLongSweep(c *Ctx, cfg Cfg, perm []int) []Violation {
 		}
 		holder := map[int]string{} // key -> uuid of the object holding K="k<key>" and N=key*10
 		fresh := 100000
-		kOf := func(k int) string { return fmt.Sprintf("k%03d", k) }
+		// in the configurations without plain indexes the keys are long strings that differ in
+		// their last bytes only (nothing may compare a prefix)
+		prefix := ""
+		if cfg.Index == 1 {
+			prefix = strings.Repeat("p", 300)
+		}
+		kOf := func(k int) string { return fmt.Sprintf("%sk%03d", prefix, k) }
 		probeAll := func(when string, domain []int) bool {
 			for _, k := range domain {
 				_, stored := holder[k]
